@@ -294,10 +294,9 @@ def _run_word(case):
         nontrivial = bool(expv)
         subsets = [C for r in range(len(names) + 1)
                    for C in itertools.combinations(names, r)]
-        if _general_in_no(word, groups) or reduced:
-            # known finding (the call raises for every variant) / reduced
-            # variant set of the long words: the two extreme contracted
-            # subsets only
+        if reduced:
+            # reduced variant set of the long words: the two extreme
+            # contracted subsets only
             subsets = [subsets[0], subsets[-1]]
         for C in subsets:
             if True:
